@@ -746,6 +746,57 @@ class _SPAKE2_Base:
         if self._finished:""", """    @_traced
     def finish(self, inbound_side_and_message):
         if self._finished:""")], note="a pass-through decorator changes nothing"),
+    # ------------------------------------------------------------------ totality ("for every input")
+    B("total-empty-password-refused", ["C01"], [(SP, """        assert isinstance(password, bytes)
+        self.pw = password""", """        assert isinstance(password, bytes)
+        if not password:
+            raise ValueError("empty password")
+        self.pw = password""")], tests="survive", note="the empty password is a legal input of C01's quantifier"),
+    B("total-number-to-bytes-refuses-zero", ["C15"], [(UT, """    if num > maxval:
+        raise ValueError
+    num_bytes = size_bytes(maxval)""", """    if num > maxval or num == 0:
+        raise ValueError
+    num_bytes = size_bytes(maxval)""")], tests="killed"),
+    B("total-int-scalar-encoder-refuses-large", ["C15", "C08"], [(GR, """        assert 0 <= 0 < self.q
+        return number_to_bytes(i, self.q)""", """        assert i < self.q // 2 + self.q // 4 + self.q // 8 + self.q // 16 + self.q // 32 + self.q // 64
+        return number_to_bytes(i, self.q)""")], note="the top 1/64 of the scalars cannot be serialised"),
+    B("total-password-to-scalar-refuses-long", ["C14"], [(GR, """    assert isinstance(pw, bytes)
+    # the oversized hash""", """    assert isinstance(pw, bytes)
+    assert len(pw) < 1024
+    # the oversized hash""")]),
+    B("total-finish-refuses-long-ids", ["C01"], [(SP, """        K_bytes = K_elem.to_bytes()
+        key = self._finalize(K_bytes)""", """        K_bytes = K_elem.to_bytes()
+        if len(self.pw) > 255:
+            raise ValueError("password too long for transcript")
+        key = self._finalize(K_bytes)""")]),
+    # ------------------------------------------------------------------ idioms: loops over known lists, incremental hashing
+    N("idiom-incremental-sha256-loop", [(SP, """    transcript = b"".join([sha256(pw).digest(),
+                           sha256(idA).digest(), sha256(idB).digest(),
+                           X_msg, Y_msg, K_bytes])
+    key = sha256(transcript).digest()
+    return key
+""", """    h = sha256()
+    for piece in (sha256(pw).digest(), sha256(idA).digest(), sha256(idB).digest(), X_msg, Y_msg, K_bytes):
+        h.update(piece)
+    return h.digest()
+""")], note="field-by-field update in the same order"),
+    N("idiom-fingerprint-built-in-loop", [(SP, """        pieces = [g.arbitrary_element(b"").to_bytes(),
+                  g.scalar_to_bytes(g.password_to_scalar(b"")),
+                  self.params.S.to_bytes(),
+                  ]
+        return sha256(b"".join(pieces)).hexdigest()""", """        pieces = [g.arbitrary_element(b"").to_bytes(),
+                  g.scalar_to_bytes(g.password_to_scalar(b""))]
+        for elem in (self.params.S,):
+            pieces.append(elem.to_bytes())
+        return sha256(b"".join(pieces)).hexdigest()""")]),
+    B("idiom-incremental-sha256-wrong-order", ["C17", "C02", "C03", "C01"], [(SP, """    transcript = b"".join([sha256(pw).digest(),
+                           sha256(idSymmetric).digest(),
+                           first_msg, second_msg, K_bytes])
+    key = sha256(transcript).digest()
+    return key""", """    h = sha256()
+    for piece in (sha256(pw).digest(), sha256(idSymmetric).digest(), msg1, msg2, K_bytes):
+        h.update(piece)
+    return h.digest()""")], tests="killed", note="messages hashed in call order instead of sorted order"),
     # ------------------------------------------------------------------ C16 isolation
     B("c16-blinding-cache-on-params", ["C16"], [(SP, """        pw_blinding = self.my_blinding().scalarmult(self.pw_scalar)
 """, """        cache = self.params.__dict__.setdefault("_blind_cache", {})
